@@ -494,6 +494,99 @@ func runC03(r *core.Run) {
 	names := []string{"NM", "XA", "Xb"}
 	maxTags := core.Pick(r, 2, 3)
 	r.Bound("tags", fmt.Sprintf("tag names %v; single tags over the full value menu (%d values: A all printable 0x21..0x7e, i extremes, f incl. NaN/Inf/-0/subnormal/max and 40 sharp values (exactly-float32 values such as float64(float32(0.1)) and MaxFloat32, 2^24+1, 2^53.., 1e21/1e22, neighbours of 1, smallest normal, notation-switch magnitudes), Z sharp strings incl. colons and quotes, H incl. empty); tag sets of size 2..%d over a reduced menu of %d values", names, len(full), maxTags, len(reduced)))
+	// EVERY number of tags on one record (the tag sets above stop at 3): a reader that splits a line into
+	// at most so many fields, or a writer that sorts tags in a fixed-size array, is wrong from one count on.
+	type c03Many struct {
+		Count int    `json:"tags"`
+		Types string `json:"types"`
+	}
+	manyTags := core.Pick(r, 300, 1500)
+	r.Bound("many-tags", fmt.Sprintf("one record with EVERY number of tags 0..%d (distinct names over [A-Za-z][A-Za-z0-9], types Z only / i only / cycling A,i,f,Z,H), between two ordinary records", manyTags))
+	core.Clause(r, "many-tags", core.Opts{Rule: "a record with n tags for every n of the range, written between two ordinary records and read back (Reader and ReaderHeader); all three records identical, tags in ascending order in the text; non-trivial = n >= 2"},
+		func(emit func(c03Many) bool) {
+			for n := 0; n <= manyTags; n++ {
+				for _, ty := range []string{"Z", "i", "AifZH"} {
+					if !emit(c03Many{n, ty}) {
+						return
+					}
+				}
+			}
+		},
+		func(c c03Many) core.Outcome {
+			mk := func(q string) *sam.SAM {
+				return &sam.SAM{Qname: q, Flag: 99, Rname: "chr1", Pos: 7, Mapq: 60, Cigar: "4M", Rnext: "=", Pnext: 40, Tlen: 37, Seq: "ACGT", Qual: "IIII", Tags: map[string]any{"NM": 1}}
+			}
+			long := mk("many")
+			delete(long.Tags, "NM")
+			const first, second = "ABCDEFGHIJKLMNOPQRSTUVWXYZabcdefghijklmnopqrstuvwxyz", "ABCDEFGHIJKLMNOPQRSTUVWXYZabcdefghijklmnopqrstuvwxyz0123456789"
+			for i := 0; i < c.Count; i++ {
+				j := (i*37 + 11) % (len(first) * len(second)) // not in sorted order
+				name := string([]byte{first[j/len(second)], second[j%len(second)]})
+				switch c.Types[i%len(c.Types)] {
+				case 'A':
+					long.Tags[name] = byte('!' + i%90)
+				case 'i':
+					long.Tags[name] = i*7 - 100
+				case 'f':
+					long.Tags[name] = float64(i) + 0.25
+				case 'Z':
+					long.Tags[name] = fmt.Sprint("v", i, " x:y")
+				default:
+					long.Tags[name] = []byte{byte(i), 0, 255}
+				}
+			}
+			if len(long.Tags) != c.Count {
+				return core.Outcome{Class: "HARNESS tag names collide", Skip: true}
+			}
+			recs := []*sam.SAM{mk("prev"), long, mk("next")}
+			var want []string
+			var ws []writerTo
+			for _, x := range recs {
+				want = append(want, renderSAM(x))
+				ws = append(ws, x)
+			}
+			w, m, fail := elWrite(ws)
+			if fail != "" {
+				return core.Failf("record with %d tags: %s", c.Count, fail)
+			}
+			if !bytes.Equal(w, m) {
+				return core.Failf("record with %d tags: Write and MarshalText give different bytes", c.Count)
+			}
+			lines := bytes.Split(bytes.TrimSuffix(w, []byte("\n")), []byte("\n"))
+			if len(lines) != 3 {
+				return core.Failf("record with %d tags: three records were written as %d lines", c.Count, len(lines))
+			}
+			if f := bytes.Split(lines[1], []byte("\t")); len(f) != 11+c.Count {
+				return core.Failf("record with %d tags is written with %d fields", c.Count, len(f))
+			} else {
+				for i := 12; i < len(f); i++ {
+					if bytes.Compare(f[i-1][:2], f[i][:2]) >= 0 {
+						return core.Failf("record with %d tags: tags are not written in ascending order (%q before %q)", c.Count, f[i-1], f[i])
+					}
+				}
+			}
+			items, p, _ := collect2(sam.Reader(bytes.NewReader(w)), renderSAM, 8)
+			hitems, hp, _ := collect2(sam.ReaderHeader(bytes.NewReader(w)), renderSAMOrHeader, 8)
+			for _, v := range []struct {
+				how   string
+				items []obsItem
+				p     string
+			}{{"Reader", items, p}, {"ReaderHeader", hitems, hp}} {
+				if v.p != "" {
+					return core.Failf("record with %d tags: %s panicked: %s", c.Count, v.how, v.p)
+				}
+				if len(v.items) != 3 {
+					return core.Failf("record with %d tags between two records: %s yields %d items: %s", c.Count, v.how, len(v.items), trunc(renderObs(v.items), 300))
+				}
+				for i := range want {
+					if v.items[i].IsErr() || v.items[i].Rec != want[i] {
+						return core.Failf("record with %d tags (%s): %s item %d is %s, written %s", c.Count, c.Types, v.how, i, clipS(renderObs(v.items[i:i+1]), 300), clipS(want[i], 300))
+					}
+				}
+			}
+			return core.Outcome{Class: c.Types, Nontrivial: c.Count >= 2, Evals: 4}
+		})
+
 	core.Clause(r, "tags", core.Opts{Rule: "every tag set within the bounds on an otherwise default record, written and read back; tags must be written in ascending order; non-trivial = all"},
 		func(emit func(samRec) bool) {
 			for _, n := range names {
